@@ -658,6 +658,9 @@ def run(ctx):
     from . import c01
     from .. import idx as idxmod
     borrow(ctx, "C16", c01.rule_layout, ctx.cx, idxmod.Idx(ctx.cx), py)
+    # shared clause: the identity-map run goes through the graph Euler engine, whose passes must be those of the grid one (C01.PHASE)
+    from .. import cxa as _cxa
+    borrow(ctx, "C16", c01.rule_phase, ctx.cx, _cxa.Effects(ctx.cx))
     from .. import lints
     lints.run(ctx, "C16", ctx.py, ["simulate", "coarsegrain"], truth_floor=3)
     ctx.assume("conservation totals, centroid distances and identity-map equivalence are value-level and not decided")
